@@ -1,7 +1,27 @@
 """C06 implementation driver: produce packages from several sources and check that from_proto and the
-spice/spectre netlisters accept them."""
+spice/spectre netlisters accept them.
+
+Sources (job["source"]):
+  design     an abstract design of harness/vp/design.py, EXTENDED (Builder06 below) by
+               ext["domain"]  : None | str                    ExternalModule.domain
+               ext["lib"]     : None | "a" | "b"              the Python file the ExternalModule object is created in
+               ext["ptype"]   : "dict" | "class"              dict-typed parameters or a paramclass with Optional fields
+               ext["spice"]   : name of a vlsirtools.SpiceType member
+               mod["lib"]     : None | "a" | "b"              the Python file the Module object is created in (its qualified name)
+               of = ["prim", "Vdc" | "Vpulse", tag]         ideal sources with every parameter given (tag = 0: zero-valued parameters)
+               of = ["ext", k, tag] with tag an int (as before) or a dict {param: value}; value = None | int | str |
+                    ["f", float-hex] | ["p", decimal-string, PREFIX] | ["l", literal-text]
+  example    an example of the repository: every package its main() exports
+  generator  built-in generators
+  pdk        sample-PDK compiled modules
+  driver     ANOTHER property's implementation driver run on one of ITS jobs (job["driver"], job["fn"], job["arg"]): every
+             package any to_proto call returns while that job runs is captured (h.to_proto, hdl21.netlisting.to_proto,
+             hdl21.proto.exporting.to_proto are wrapped), whatever the driver does with it.
+Only the public API is used; nothing here decides what the right answer is."""
+import common
 from common import main, exc_info
-import io, sys, importlib
+import io, sys, importlib, contextlib, decimal
+from typing import Optional
 import hdl21 as h
 import vlsirtools
 from designlib import Builder, pkg_json
@@ -30,8 +50,106 @@ def accept(pkg):
     return res
 
 
+# ------------------------------------------------------------------------------------------------ capturing every export
+@contextlib.contextmanager
+def capture(captured):
+    import hdl21.netlisting as NL
+    import hdl21.proto.exporting as EX
+    import hdl21.proto as PR
+    orig = EX.to_proto
+
+    def spy(*a, **kw):
+        pkg = orig(*a, **kw)
+        captured.append(pkg)
+        return pkg
+    holders = [x for x in (NL, h, PR, EX) if getattr(x, "to_proto", None) is orig]
+    for x in holders:
+        x.to_proto = spy
+    try:
+        yield
+    finally:
+        for x in holders:
+            x.to_proto = orig
+
+
+# ------------------------------------------------------------------------------------------------ designs
+@h.paramclass
+class C06ExtParams:
+    tag = h.Param(dtype=int, desc="tag", default=0)
+    vt = h.Param(dtype=Optional[str], desc="vt", default=None)
+    m = h.Param(dtype=Optional[int], desc="m", default=None)
+    w = h.Param(dtype=Optional[h.Scalar], desc="w", default=None)
+
+
+def pvalue(v):
+    if v is None or isinstance(v, (int, str)):
+        return v
+    if v[0] == "f":
+        return float.fromhex(v[1])
+    if v[0] == "p":
+        return h.Prefixed(number=decimal.Decimal(v[1]), prefix=h.Prefix[v[2]])
+    if v[0] == "l":
+        return h.Literal(v[1])
+    raise ValueError(v)
+
+
+def lib(which):
+    if which is None:
+        return None
+    return importlib.import_module({"a": "c06liba", "b": "c06libb"}[which])
+
+
+class Builder06(Builder):
+    def __init__(self, design, uniq=""):
+        from vlsirtools import SpiceType
+        self.d = design
+        self.uniq = uniq
+        self.mods = []
+        self.ncs = {}
+        self.exts = []
+        self.ptypes = []
+        for x in design.get("exts", []):
+            kw = dict(name=x["name"], port_list=[h.Port(name=n, width=w) for n, w in x["ports"]],
+                      paramtype=C06ExtParams if x.get("ptype") == "class" else dict)
+            if x.get("domain") is not None:
+                kw["domain"] = x["domain"]
+            if x.get("spice") is not None:
+                kw["spicetype"] = SpiceType[x["spice"]]
+            L = lib(x.get("lib"))
+            self.exts.append(L.extmodule(**kw) if L is not None else h.ExternalModule(**kw))
+            self.ptypes.append(x.get("ptype", "dict"))
+
+    def target(self, of):
+        if of[0] == "prim" and of[1] == "Vdc":          # ideal sources: every parameter given, value `tag` (0 is a value)
+            return h.Vdc(dc=of[2])
+        if of[0] == "prim" and of[1] == "Vpulse":
+            t = of[2]
+            return h.Vpulse(v1=t, v2=t + 1, delay=t, rise=t + 1, fall=t + 1, width=t + 2, period=t + 5)
+        if of[0] == "ext" and isinstance(of[2], dict):
+            vals = {k: pvalue(v) for k, v in of[2].items()}
+            x = self.exts[of[1]]
+            return x(**vals) if self.ptypes[of[1]] == "class" else x(dict(vals))
+        return super().target(of)
+
+    def build(self):
+        for md in self.d["mods"]:
+            L = lib(md.get("lib"))
+            name = md["name"] + self.uniq if md["name"] is not None else None
+            if L is not None:
+                self.mods.append(L.module(name))
+            else:
+                self.mods.append(h.Module(name=name) if name is not None else h.Module())
+        for mi, md in enumerate(self.d["mods"]):
+            self.build_module(mi, md)
+        return self.mods[self.d["top"]]
+
+
 def from_design(job):
-    top = Builder(job["design"]).build()
+    job["_stage"] = "build"
+    top = Builder06(job["design"]).build()
+    job["_stage"] = "elaborate"
+    h.elaborate(top)
+    job["_stage"] = "export"
     return [h.to_proto(top)]
 
 
@@ -39,22 +157,9 @@ def from_examples(job):
     """Run an example's main() and capture every package it exports."""
     sys.path.insert(0, job["repo"])
     captured = []
-    import hdl21.netlisting as NL
-    import hdl21.proto.exporting as EX
-    orig = EX.to_proto
-
-    def spy(*a, **kw):
-        pkg = orig(*a, **kw)
-        captured.append(pkg)
-        return pkg
-    NL.to_proto = spy
-    h.to_proto = spy
-    try:
+    with capture(captured):
         mod = importlib.import_module("examples." + job["example"])
         mod.main()
-    finally:
-        NL.to_proto = orig
-        h.to_proto = orig
     return captured
 
 
@@ -85,7 +190,31 @@ def from_pdk(job):
     return [h.to_proto(m)]
 
 
-SOURCES = dict(design=from_design, example=from_examples, generator=from_generator, pdk=from_pdk)
+_drivers = {}
+
+
+def driver(name):
+    """Import another property's implementation driver without letting it run its own main()."""
+    if name not in _drivers:
+        real = common.main
+        common.main = lambda handler: None
+        try:
+            _drivers[name] = importlib.import_module(name)
+        finally:
+            common.main = real
+    return _drivers[name]
+
+
+def from_driver(job):
+    mod = driver(job["driver"])
+    captured = []
+    with capture(captured):
+        res = getattr(mod, job["fn"])(job["arg"])
+    job["_driver_result"] = res
+    return captured
+
+
+SOURCES = dict(design=from_design, example=from_examples, generator=from_generator, pdk=from_pdk, driver=from_driver)
 
 
 def do(job):
@@ -94,8 +223,20 @@ def do(job):
         pkgs = SOURCES[job["source"]](job)
     except Exception as e:
         out["err"] = exc_info(e)
+        out["stage"] = job.pop("_stage", None)
         return out
+    job.pop("_stage", None)
+    if job["source"] == "driver":
+        # what the other driver itself reported as its failure, if it caught one (class only)
+        res = job.pop("_driver_result", None)
+        e = res.get("err") if isinstance(res, dict) else None
+        out["driver_err"] = e if e is None or isinstance(e, (dict, list, str)) else str(e)
+    seen = []
     for pkg in pkgs:
+        s = pkg.SerializeToString(deterministic=True)
+        if s in seen:           # the same package exported again (h.netlist after h.to_proto): once is enough
+            continue
+        seen.append(s)
         out["pkgs"].append(dict(pkg=pkg_json(pkg), accept=accept(pkg)))
     return out
 
